@@ -13,6 +13,7 @@ Three modes:
                writer emitted at this stream position (reader-over-writer, C01/C03)
   * 'size'   : like write, evaluates a calculate* function
 """
+import re
 import copy
 
 import sym
@@ -63,6 +64,7 @@ class St:
         self.nin = 0
         self.lambdas = {}
         self.lsz = {}        # local byte buffers (std::vector<char> tmp): (frame key, var id) -> size
+        self.lzero = set()   # ... of those, the ones that still hold the zeros they were initialised with
         self.reads_of = []   # (path, line, fn) - every member value consulted in a computation (for L8)
         self.stale = []      # (path, read line, read fn, assign line) - consulted, then redefined by the same run
 
@@ -87,6 +89,7 @@ class St:
         n.reads_of = list(self.reads_of)
         n.lambdas = dict(self.lambdas)
         n.lsz = dict(self.lsz)
+        n.lzero = set(self.lzero)
         n.stale = list(self.stale)
         return n
 
@@ -234,6 +237,11 @@ class Interp:
         return t.startswith('std::vector<char') or t.startswith('std::vector<unsigned char') or t.startswith('std::vector<uint8_t') or \
             t in ('std::string', 'std::basic_string<char>') or t.startswith('std::vector<signed char')
 
+    @staticmethod
+    def _byte_array_len(v):
+        m = re.match(r'^(?:const )?(?:unsigned |signed )?(?:char|uint8_t|int8_t)\[(\d+)\]$', v.get('t') or '')
+        return int(m.group(1)) if m else None
+
     def broken(self, what, n, frame):
         raise AnalysisBroken('unsupported construct in codec body %s (%s:%s): %s' %
                              (frame.fn['name'], self.F.rel(frame.fn['file']), n.get('l') if isinstance(n, dict) else '?', what))
@@ -280,7 +288,14 @@ class Interp:
                     continue
                 nxt = []
                 for cur in states:
-                    if v.get('init') is None and self._is_byte_buffer(v):
+                    if self._byte_array_len(v) is not None:
+                        # char pad[4] = {0, 0, 0, 0};  a fixed scratch buffer, zero while nothing is read into it
+                        cur.lsz[(frame.key, v['id'])] = Lin(self._byte_array_len(v))
+                        init = v.get('init')
+                        if isinstance(init, dict) and init.get('k') == 'InitList' and all(isinstance(x, dict) and x.get('v') == 0 for x in init.get('elems', [])):
+                            cur.lzero.add((frame.key, v['id']))
+                        nxt.append(cur)
+                    elif v.get('init') is None and self._is_byte_buffer(v):
                         cur.lsz[(frame.key, v['id'])] = Lin(0)
                         nxt.append(cur)
                     elif v.get('init') is None:
@@ -297,6 +312,8 @@ class Interp:
                         if len(args) == 1:
                             for s2, val in self.ev(args[0], cur, frame):
                                 s2.lsz[(frame.key, v['id'])] = val
+                                if (v.get('t') or '').replace('const ', '').startswith('std::vector<'):
+                                    s2.lzero.add((frame.key, v['id']))   # std::vector<char> zeros(n): value-initialised elements
                                 nxt.append(s2)
                         elif not args:
                             cur.lsz[(frame.key, v['id'])] = Lin(0)
@@ -553,6 +570,8 @@ class Interp:
                     self.broken('unresolvable member ' + fmt_path(path), p, frame)
                 return {'kind': 'member', 'path': path, 'target_size': f.get('size'), 'field': f}
             return {'kind': 'other'}
+        if isinstance(q, dict) and q.get('k') == 'Ref' and q.get('dk') == 'local' and re.search(r'char\[\d+\]$|int8_t\[\d+\]$', q.get('t') or ''):
+            return {'kind': 'localcontainer', 'name': q['name'], 'id': q['id']}
         if q.get('k') == 'Call' and q.get('fn') == 'data' and q.get('ck') == 'member':
             path = self.abs_path(q['obj'], frame)
             if path is not None:
@@ -608,6 +627,11 @@ class Interp:
             cap = it.extra['cap']
             d = cap - n
             ok = d.is_const() and d.c >= 0
+            if not ok and cap.is_const() and len(n.t) == 1 and n.c == 0:
+                # x % K < K for the unsigned sizes of the format
+                (t_, k_), = n.t.items()
+                if k_ == 1 and t_[0] == 'op' and t_[1] == '%' and isinstance(t_[3], Lin) and t_[3].is_const() and 0 < t_[3].c <= cap.c + 1:
+                    ok = True
             capdesc = 'local buffer %s.size() = %r' % (it.extra.get('name'), cap)
         elif it.target_size is not None:
             ok = n.is_const() and n.c <= it.target_size
@@ -631,11 +655,14 @@ class Interp:
             self.broken('stream read inside a %s function' % self.mode, e, frame)
         tgt = self.ptr_target(e['args'][0], frame)
         if tgt['kind'] == 'localcontainer' and (frame.key, tgt['id']) in st.lsz:
+            st.lzero.discard((frame.key, tgt['id']))
             # bytes read into a local scratch buffer are consumed and discarded: a skip - but one that, unlike seekg, fails on a short stream
+            outs = []
             for s2, n in self.ev(e['args'][1], st, frame):
                 it = self.make_item(e, tgt, n, s2, frame)
                 self.bound_check(it, s2, frame, 'B1')
-            return self.prim_skip(e, st, frame, 'seekg', count_arg=1, by_read=True)
+                outs += self.prim_skip(e, s2, frame, 'seekg', count_arg=1, by_read=True, buffer=tgt['name'])
+            return outs
         outs = []
         for s2, n in self.ev(e['args'][1], st, frame):
             it = self.make_item(e, tgt, n, s2, frame)
@@ -686,6 +713,14 @@ class Interp:
         if self.mode != 'write':
             self.broken('stream write inside a %s function' % self.mode, e, frame)
         tgt = self.ptr_target(e['args'][0], frame)
+        if tgt['kind'] == 'localcontainer' and (frame.key, tgt['id']) in st.lzero:
+            # n bytes out of a local buffer that holds nothing but zeros: what skipp(n) writes
+            outs = []
+            for s2, n in self.ev(e['args'][1], st, frame):
+                it = self.make_item(e, tgt, n, s2, frame)
+                self.bound_check(it, s2, frame, 'B2')
+                outs += self.prim_skip(e, s2, frame, 'skipp', count_arg=1, buffer=tgt['name'])
+            return outs
         outs = []
         for s2, n in self.ev(e['args'][1], st, frame):
             it = self.make_item(e, tgt, n, s2, frame)
@@ -696,13 +731,13 @@ class Interp:
             outs.append(s2)
         return outs
 
-    def prim_skip(self, e, st, frame, which, count_arg=0, by_read=False):
+    def prim_skip(self, e, st, frame, which, count_arg=0, by_read=False, buffer=None):
         if (which == 'seekg') != (self.mode == 'read'):
             self.broken('%s inside a %s function' % (which, self.mode), e, frame)
         outs = []
         for s2, n in self.ev(e['args'][count_arg], st, frame):
             it = Item(kind='pad', path=None, width=n, line=e['l'], file=frame.fn['file'], fn=frame.fn['name'], via=frame.chain,
-                      src='pad', extra={'by_read': True} if by_read else {})
+                      src='pad', extra=dict({'by_read': True} if by_read else {}, **({'buffer': buffer} if buffer else {})))
             s2.items.append(it)
             if self.stream is not None and self.mode == 'read':
                 if n.is_const() and n.c == 0:
